@@ -31,8 +31,8 @@ ASSUMPTIONS = [
     'licensed cut-off: a transmittance term whose vertical optical depth is >= 10 at every wavenumber may be '
     'replaced by 0; by Abel summation the intensity then deviates by at most exp(-10)*(B_0 + sum_l |B_{l-1}-B_l|)',
 ]
-_Q = {'emission': 100, 'direct': 35, 'isothermal': 35, 'rerun': 40, 'ktable': 40, 'several': 25, 'star': 60}
-_T = {'emission': 2000, 'direct': 600, 'isothermal': 600, 'rerun': 800, 'ktable': 700, 'several': 400, 'star': 800}
+_Q = {'sweep': 1, 'emission': 100, 'direct': 35, 'isothermal': 35, 'rerun': 40, 'ktable': 40, 'several': 25, 'star': 60}
+_T = {'sweep': 4, 'emission': 2000, 'direct': 600, 'isothermal': 600, 'rerun': 800, 'ktable': 700, 'several': 400, 'star': 800}
 BUDGET = {
     'quick': [dict(name='boundscheck', env={'NUMBA_BOUNDSCHECK': '1'}, shards=4, cases=_Q)],
     'thorough': [dict(name='boundscheck', env={'NUMBA_BOUNDSCHECK': '1'}, shards=16, cases=_T),
@@ -42,7 +42,7 @@ REQUIRED = dict(monitors=['intensity-per-angle', 'flux', 'eclipse-spectrum', 'di
                           'isothermal-identity', 'between-coldest-and-hottest', 'quadrature-nodes',
                           'partial-model-equals-intensity', 'ktable-intensity-per-angle', 'ktable-flux',
                           'earlier-result-stays-as-returned', 'caller-input-left-alone'],
-                classes=['model:emission', 'model:directimage', 'clamp-possible', 'no-clamp', 'ngauss:1', 'ngauss:8',
+                classes=['history:one-model-hundreds-of-temperatures', 'model:emission', 'model:directimage', 'clamp-possible', 'no-clamp', 'ngauss:1', 'ngauss:8',
                          'T:isothermal', 'T:array', 'magnitude:transparent', 'magnitude:saturating',
                          'rerun:evaluated-after-change', 'mode:ktable', 'ktable:continuum-only-model',
                          'ktable:model_contrib-entry-judged', 'ktable-mode:no-molecular-absorber',
@@ -479,6 +479,54 @@ def wl_rerun(ctx, rng):
             round(spec['planet_mass'], 6))
 
 
+def wl_sweep(ctx, rng):
+    """A long history on ONE emission model (a retrieval of the temperature): hundreds of evaluations, a new isothermal
+    temperature every time, earlier ones coming back.  Every evaluation is judged like the first; the star's spectrum the
+    caller read at the start stays what it was."""
+    from taurex.exceptions import InvalidModelException
+    spec = make_case(rng, tkind='isothermal')
+    observe_case(ctx, spec, 'emission')
+    model = realise(spec, 'emission')
+    snap, out = run(ctx, model)
+    if snap is None:
+        return
+    res = oracle(ctx, snap, spec)
+    judge_spectrum(ctx, snap, out, res, spec, 'emission')
+    led = own.Ledger(ctx, 'sweep')
+    led.keep(model.star.spectralEmissionDensity, 'star-sed[0]')
+    n = int(rng.integers(560, 700)) if ctx.tier == 'quick' else int(rng.integers(1200, 4000))
+    temps = [float(rng.uniform(300, 2800)) for _ in range(n)]
+    seq = []
+    for j, t in enumerate(temps):
+        seq.append(t)
+        if j % 50 == 49:
+            seq.append(temps[int(rng.integers(0, j // 2))])
+    judged = 0
+    for j, t in enumerate(seq):
+        model['T'] = t
+        _state['snap'] = None
+        try:
+            out = model.model()
+        except InvalidModelException as e:
+            ctx.license(type(e).__name__)
+            continue
+        s2 = _state['snap']
+        _state['snap'] = None
+        zb = np.asarray(model.altitude_boundaries, dtype=float)
+        if s2 is None or not np.all(np.isfinite(zb)) or zb[-1] > 2.0 * s2['Rp']:
+            ctx.event('domain-skip:perturbed-atmosphere-unbound')
+            continue
+        r2 = oracle(ctx, s2, spec)
+        judge_spectrum(ctx, s2, out, r2, spec, 'emission')
+        judged += 1
+        if j % 100 == 99:
+            led.settle('evaluation %d of the same model' % j)
+    led.settle('all evaluations')
+    if judged > 500:
+        ctx.observe('history:one-model-hundreds-of-temperatures')
+    ctx.sig('sweep', spec['nlayers'], spec['ngauss'], spec['magnitude'], len(seq))
+
+
 def wl_several(ctx, rng):
     """Several emission / direct-image model objects alive at once and evaluated in turn; in between one further model
     of the same quadrature order is given its own nodes through the public set_quadratures().  Every evaluation of the
@@ -567,7 +615,7 @@ def wl_star(ctx, rng):
     ctx.sig('star', n, round(T, 3))
 
 
-WORKLOADS = {'star': wl_star, 'several': wl_several, 'emission': wl_emission, 'direct': wl_direct, 'isothermal': wl_isothermal, 'rerun': wl_rerun,
+WORKLOADS = {'sweep': wl_sweep, 'star': wl_star, 'several': wl_several, 'emission': wl_emission, 'direct': wl_direct, 'isothermal': wl_isothermal, 'rerun': wl_rerun,
              'ktable': wl_ktable}
 
 LEVEL_TEXT = ('Exploration by runtime monitoring: every evaluate_emission / compute_final_flux call made by the workload '
